@@ -136,10 +136,19 @@ def run(ctx):
             for n in k["ns"]:
                 o = rr[str(n)]
                 eitems.append((ki, tg, n, o))
-                want_marks = [1 if tg.startswith("cpu") else 0, 1 if tg == "opencl" else 0, 1 if tg == "cuda" else 0]
+                want_marks = [1 if tg.startswith("cpu") else 0, 1 if tg == "opencl" else 0, 1 if tg == "cuda" else 0, 1 if tg == "cpu_serial" else 0, 1 if tg == "cpu_openmp" else 0]
                 launches = 1 if tg.startswith("cpu") else (n if tg == "opencl" else int(-(-n // k["B"])) * k["B"])
                 if [1 if m > 0 else 0 for m in o["marks"]] != ([w if launches > 0 else 0 for w in want_marks]):
                     note("C16/context-restricted-line-active-in-the-wrong-context/%s" % tg, "marks %s for n=%d" % (o["marks"], n), {"kernel": k, "target": tg, "n": n})
+        rr1 = r.get("cpu_openmp/1-thread")
+        if rr1 is not None:
+            if "exc" in rr1:
+                note("C16/cpu_openmp-with-one-thread-does-not-run:%s" % rr1["exc"], rr1.get("msg", "")[-300:], {"kernel": k, "target": "cpu_openmp/1-thread"})
+            else:
+                for n in k["ns"]:
+                    o = rr1[str(n)]
+                    if [1 if m > 0 else 0 for m in o["marks"]] != [1, 0, 0, 0, 1] or o["log"] != r["cpu_openmp"].get(str(n), {}).get("log", o["log"]):
+                        note("C16/context-restricted-line-active-in-the-wrong-context/cpu_openmp-one-thread", "marks %s for n=%d (an OpenMP context with omp_num_threads=1)" % (o["marks"], n), {"kernel": k, "target": "cpu_openmp", "n": n})
     def ecounts(k, tg, n, o):
         # lines restricted to contexts add 100 per execution where active: separate them from the plain count
         nb = len(k["blocks"]); w = n + 4
